@@ -16,7 +16,7 @@ use embedded_cli::{
     buffer::Buffer,
     cli::{Cli, CliBuilder, CliHandle},
     command::RawCommand,
-    service::{CommandProcessor, ProcessError},
+    service::{CommandProcessor, ParseError, ProcessError},
     writer::Writer,
 };
 use serde_json::{json, Value};
@@ -27,7 +27,7 @@ use crate::{
     with_set,
 };
 
-pub const PROMPTS: &[&str] = &["$ ", "", "ж> ", "> ", "dev:~# ", "中"];
+pub const PROMPTS: &[&str] = &["$ ", "", "ж> ", "> ", "dev:~# ", "中", "=> ", "λ "];
 
 pub type TestCli = Cli<Sink, SinkError, &'static mut [u8], &'static mut [u8]>;
 
@@ -46,6 +46,8 @@ pub struct HandlerScript {
     pub chunks: Vec<Chunk>,
     /// index into PROMPTS, or -1
     pub prompt: i64,
+    /// 0, or which ParseError a hand-written processor returns after its output
+    pub perr: i64,
 }
 
 fn parse_chunks(v: Option<&Value>) -> Vec<Chunk> {
@@ -83,10 +85,12 @@ fn parse_hs(v: Option<&Value>) -> HandlerScript {
         Some(v) if v.is_object() => HandlerScript {
             chunks: parse_chunks(v.get("chunks")),
             prompt: v.get("p").and_then(|p| p.as_i64()).unwrap_or(-1),
+            perr: v.get("perr").and_then(|p| p.as_i64()).unwrap_or(0),
         },
         _ => HandlerScript {
             chunks: vec![],
             prompt: -1,
+            perr: 0,
         },
     }
 }
@@ -139,6 +143,8 @@ pub fn perform(writer: &mut Writer<'_, Sink, SinkError>, chunks: &[Chunk]) -> Re
                     ufmt::uwrite!(writer, "{}", ch)?
                 }
             }
+            // constant format strings (no run-time arguments): `t` names one of a fixed menu of literals
+            "kf" | "kl" | "ku" | "kn" => konst(writer, c.m.as_str(), text)?,
             // the other public methods of Writer: write_title(text); write_list_element(text, description, width)
             "ti" => writer.write_title(text)?,
             "le" => {
@@ -149,6 +155,24 @@ pub fn perform(writer: &mut Writer<'_, Sink, SinkError>, chunks: &[Chunk]) -> Re
         }
     }
     Ok(())
+}
+
+macro_rules! konst_menu {
+    ($w:expr, $m:expr, $text:expr, [$($lit:literal),*]) => {{
+        use core::fmt::Write as _;
+        match ($m, $text) {
+            $(("kf", $lit) => write!($w, $lit).map_err(|_| SinkError),)*
+            $(("kl", concat!($lit, "\n")) => writeln!($w, $lit).map_err(|_| SinkError),)*
+            $(("ku", $lit) => ufmt::uwrite!($w, $lit),)*
+            $(("kn", concat!($lit, "\n")) => ufmt::uwriteln!($w, $lit),)*
+            (m, t) => panic!("no literal {t:?} for chunk method {m}"),
+        }
+    }};
+}
+
+/// `write!` / `writeln!` / `uwrite!` / `uwriteln!` with a literal and no arguments
+fn konst(writer: &mut Writer<'_, Sink, SinkError>, m: &str, text: &str) -> Result<(), SinkError> {
+    konst_menu!(writer, m, text, ["done", "", "ok\n", "a\nb", "x", "ж€ z", "two\r\nrows\n"])
 }
 
 struct RawHandler<'s> {
@@ -185,7 +209,14 @@ impl CommandProcessor<Sink, SinkError> for RawHandler<'_> {
             cli.set_prompt(PROMPTS[self.script.prompt as usize]);
         }
         self.sink.mark(Op::He);
-        res.map_err(ProcessError::WriteError)
+        res.map_err(ProcessError::WriteError)?;
+        // a hand-written processor may reject the command after having written something
+        match self.script.perr {
+            0 => Ok(()),
+            1 => Err(ProcessError::ParseError(ParseError::UnknownCommand)),
+            2 => Err(ProcessError::ParseError(ParseError::UnexpectedArgument { value: raw.name() })),
+            _ => Err(ProcessError::ParseError(ParseError::MissingRequiredArgument { name: "THING" })),
+        }
     }
 }
 
@@ -280,8 +311,8 @@ fn record<CB: Buffer, HB: Buffer>(
     if ev == "prompt" || ev == "init" {
         rec["p"] = json!(p);
     }
-    if !hs.chunks.is_empty() || hs.prompt >= 0 {
-        rec["hs"] = json!({"chunks": chunks_json(&hs.chunks), "setp": hs.prompt >= 0, "p": hs_p});
+    if !hs.chunks.is_empty() || hs.prompt >= 0 || hs.perr > 0 {
+        rec["hs"] = json!({"chunks": chunks_json(&hs.chunks), "setp": hs.prompt >= 0, "p": hs_p, "perr": hs.perr});
     }
     if fail.1 != FailMode::None {
         rec["fail"] = fail_json(fail.0, fail.1);
@@ -421,6 +452,7 @@ fn drive<S: CmdSet, CB: Buffer, HB: Buffer>(
     let empty_hs = HandlerScript {
         chunks: vec![],
         prompt: -1,
+        perr: 0,
     };
     let mut cli = match built {
         Ok(cli) => {
@@ -474,10 +506,11 @@ fn drive<S: CmdSet, CB: Buffer, HB: Buffer>(
                         hs = HandlerScript {
                             chunks: vec![],
                             prompt: -1,
+                            perr: 0,
                         };
                     }
                     r
-                } else if via_processor {
+                } else if via_processor && hs.perr == 0 {
                     // the library's own wrapper: RawCommand::processor(closure)
                     let sink2 = sink.clone();
                     let calls_ref = &mut calls;
